@@ -101,7 +101,9 @@ def gen_case(rng):
     k = rng.choice(['cross', 'ruler', 'meander', 'ablation', 'box'])
     attrs = {'speed': rng.choice([1.0, 2.0]), 'speed_closed': rng.choice([5.0, 20.0]), 'speed_pos': rng.choice([0.5, 5.0]),
              'depth': rng.choice([0.0, -0.125, 0.5])}
-    c = {'fig': k, 'attrs': attrs, 'exact': exact}
+    # integer-valued arguments are passed as Python ints in part of the cases (a corner [1, 2, 0] is as legal as [1.0, 2.0, 0.0]);
+    # the orientation of a meander is case-insensitive
+    c = {'fig': k, 'attrs': attrs, 'exact': exact, 'as_int': rng.random() < 0.35, 'upper': rng.random() < 0.3}
     if k == 'cross':
         c['pos'] = [rng.choice(vals), rng.choice(vals)] + ([rng.choice(vals)] if rng.random() < 0.6 else [])
         c['pos3'] = c['pos'] + ([attrs['depth']] if len(c['pos']) == 2 else [])
@@ -167,18 +169,22 @@ def call_real(c):
     from femto.marker import Marker
     a = c['attrs']
     k = c['fig']
+
+    def ty(vs):
+        return [int(v) if c.get('as_int') and float(v).is_integer() else v for v in vs]
     with core.quiet():
         mk = Marker(speed=a['speed'], speed_closed=a['speed_closed'], speed_pos=a['speed_pos'], depth=a['depth'])
         if k == 'cross':
-            mk.cross(list(c['pos']), lx=c['lx'], ly=c['ly'])
+            mk.cross(ty(c['pos']), lx=c['lx'], ly=c['ly'])
         elif k == 'ruler':
-            mk.ruler(list(c['ticks']), lx=c['lx'], lx2=c['lx2'], x_init=c['x_init'])
+            mk.ruler(ty(c['ticks']), lx=c['lx'], lx2=c['lx2'], x_init=c['x_init'])
         elif k == 'meander':
-            mk.meander(list(c['init']), list(c['final']), width=c['width'], delta=c['delta'], orientation='x' if c['along_x'] else 'y')
+            o = 'x' if c['along_x'] else 'y'
+            mk.meander(ty(c['init']), ty(c['final']), width=c['width'], delta=c['delta'], orientation=o.upper() if c.get('upper') else o)
         elif k == 'ablation':
-            mk.ablation([list(p) for p in c['pts']], shift=c['shift'])
+            mk.ablation([ty(p) for p in c['pts']], shift=c['shift'])
         else:
-            mk.box(list(c['corner']), width=c['width'], height=c['height'])
+            mk.box(ty(c['corner']), width=c['width'], height=c['height'])
         pts = np.asarray(mk.points, dtype=np.float64)
         raw = [[float(v) for v in r] for r in zip(mk._x, mk._y, mk._z, mk._f, mk._s)]
     return pts, raw
